@@ -56,7 +56,8 @@ DEFAULTS = [
     (['expr', 'now()'], None), (['expr', "a'b(\"c\")"], None),
 ]
 TYPES = [['str', 'int'], ['str', 'varchar(255)'], ['str', 'decimal(10, 2)'], ['str', 'int[]'],
-         ['enum', 'public', 'e'], ['enum', 's', 'e2'], ['str', 'character varying'], ['str', 'x.y'], ['str', 'x.y(3)'], ['str', 'x.y[]'], ['str', 'E']]
+         ['enum', 'public', 'e'], ['enum', 's', 'e2'], ['str', 'character varying'], ['str', 'x.y'], ['str', 'x.y(3)'], ['str', 'x.y[]'], ['str', 'E'],
+         ['str', 'numeric((1), f(2))'], ['str', "enum('a', 'b')"]]
 FLAGS = list(itertools.product([False, True], repeat=4))
 
 
